@@ -141,9 +141,10 @@ func (x *Exec) sprintf(st *State, args []Value) Value {
 
 func (x *Exec) formatArg(st *State, elem *Term, verb byte, spec string) *Term {
 	// known string payload?
+	elem = resolve(elem)
 	if elem.Kind == KApp && elem.Op == "mkIface" && elem.Args[0].Kind == KIntLit {
 		ty := x.prog.tagTypes[elem.Args[0].Int]
-		payload := elem.Args[1]
+		payload := resolve(elem.Args[1])
 		if ty != nil {
 			if b, ok := ty.Underlying().(*types.Basic); ok && spec == "" {
 				if b.Info()&types.IsString != 0 && (verb == 's' || verb == 'v') {
